@@ -361,10 +361,19 @@ func SortByPower(vs []*types.Validator) {
 // WireEvidence passes evidence through its protobuf encoding exactly like the evidence reactor and block decoding
 // do (marshal, unmarshal, EvidenceFromProto incl. ValidateBasic). Every piece of evidence a node receives from the
 // network or inside a block has been through this.
-func WireEvidence(ev types.Evidence) (types.Evidence, error) {
+func WireEvidence(ev types.Evidence) (types.Evidence, error) { return WireEvidenceWith(ev, nil) }
+
+// WireEvidenceWith is WireEvidence with a hostile encoder: edit (if not nil) may change the protobuf message before
+// it is marshalled — e.g. forge fields that no hash or signature covers (ValidatorSet.total_voting_power, proposer
+// priorities, the proposer entry, public keys in the byzantine list ...). An honest encoder never produces such
+// values, a peer or a proposer can.
+func WireEvidenceWith(ev types.Evidence, edit func(pb *tmproto.Evidence)) (types.Evidence, error) {
 	pb, err := types.EvidenceToProto(ev)
 	if err != nil {
 		return nil, err
+	}
+	if edit != nil {
+		edit(pb)
 	}
 	bz, err := pb.Marshal()
 	if err != nil {
